@@ -2,6 +2,7 @@ package c16
 
 import (
 	"fmt"
+	"regexp"
 	"sort"
 	"strings"
 	"testing"
@@ -31,6 +32,9 @@ type Case struct {
 }
 
 func ip(i int) *int { return &i }
+
+// an integer that is the value of an object member or an array element, with what follows it
+var wholeNum = regexp.MustCompile(`[:\[,]-?\d{1,9}[,}\]]`)
 
 func genCase(t *rapid.T) Case {
 	doc := gen.JSONDoc(t, gen.DocOpts{Depth: 3, Width: 4, NoFloats: true, SimpleStr: true, Distinct: rapid.Bool().Draw(t, "distinct")})
@@ -71,6 +75,12 @@ func genCase(t *rapid.T) Case {
 	default:
 		f = gen.Derivation(t, target, &labels)
 	}
+	// deleting an element renumbers what follows it (here the indices are not stale: del keeps them true)
+	if target.K == model.Seq && len(target.Elem) >= 2 && rapid.IntRange(0, 5).Draw(t, "delel") == 0 {
+		labels = []string{"f:del_element"}
+		f = &ref.E{Op: "self"}
+		extra = fmt.Sprintf("del(.[%d])", rapid.IntRange(0, len(target.Elem)-2).Draw(t, "deli"))
+	}
 	// two containers of the document combined: + and * of maps (overlapping keys), + of sequences
 	if rapid.IntRange(0, 5).Draw(t, "two") == 0 && len(paths) >= 2 {
 		i := rapid.IntRange(0, len(paths)-1).Draw(t, "c1")
@@ -98,6 +108,17 @@ func genCase(t *rapid.T) Case {
 		}
 	}
 	c := Case{Doc: doc.JSON(), F: txt, Label: labels}
+	// JSON numbers in other spellings of the same whole number (2.0, 2e0): a node like any other
+	if rapid.IntRange(0, 3).Draw(t, "floatspell") == 0 {
+		n := 0
+		c.Doc = wholeNum.ReplaceAllStringFunc(c.Doc, func(m string) string {
+			n++
+			if n%2 == 1 {
+				return m[:len(m)-1] + rapid.SampledFrom([]string{".0", "e0", ".00"}).Draw(t, "fs") + m[len(m)-1:]
+			}
+			return m
+		})
+	}
 	if rapid.IntRange(0, 4).Draw(t, "assign") == 0 && doc.K == model.Map && pre.Op != "self" {
 		c.Assign = true
 		c.Label = append(c.Label, "assign_back")
@@ -314,8 +335,12 @@ func check(c Case) hx.Verdict {
 		}
 		ci++
 	}
+	updates := false // f changes the document itself (a delete): the probes below are about derivations that only read
+	for _, l := range c.Label {
+		updates = updates || l == "f:del_element"
+	}
 	// (v) building the derived value must not disturb where the nodes of the document are
-	if doc, err := model.ParseJSON(c.Doc); err == nil && !c.Assign {
+	if doc, err := model.ParseJSON(c.Doc); err == nil && !c.Assign && !updates {
 		dp, o6 := evalOne("("+f+") as $c | [.. | path]", c.Doc)
 		if o6.Crashed() {
 			return hx.Bad("panic-site:"+o6.PanicSite, "panic %s", o6.Panic)
@@ -336,7 +361,7 @@ func check(c Case) hx.Verdict {
 	}
 	// (vi) the same through key nodes (`...`) and after copying f into the document and deleting from the copy:
 	// what the document's own nodes report must not depend on what was built from them
-	if !c.Assign {
+	if !c.Assign && !updates {
 		for _, q := range []struct{ base, probe string }{
 			{"[... | path]", "(" + f + ") as $c | [... | path]"},
 			{"[.. | [key]]", "(" + f + ") as $c | [.. | [key]]"},
@@ -357,6 +382,12 @@ func check(c Case) hx.Verdict {
 		}
 	}
 	if stale {
+		for _, l := range c.Label {
+			if l == "f:del_element" {
+				// del renumbers the elements it leaves: a wrong index after it is not the finding about rebuilt sequences
+				return hx.Bad("", "after a delete the remaining elements report wrong indices: f=%s C=%s paths=%s keys=%s doc=%s", root, C.JSON(), paths.JSON(), keys.JSON(), c.Doc)
+			}
+		}
 		return hx.Bad("deviant:stale-seq-index", "a re-parented sequence child reports the index (or parent path) it had in its source container: f=%s C=%s paths=%s doc=%s", root, C.JSON(), paths.JSON(), c.Doc)
 	}
 	nontrivial := len(exp) >= 3 && f != "."
